@@ -287,7 +287,14 @@ def _where(cond, a, b):
 def _gather(data, idx):
     if isinstance(idx, (list, tuple)):
         return [_gather(data, i) for i in idx]
-    return data[_int(idx)]
+    i = _int(idx)
+    if not isinstance(data, (list, tuple)):
+        from .alg import FragmentFault
+        raise FragmentFault("gather on a scalar")
+    if not -len(data) <= i < len(data):
+        from .alg import FragmentFault
+        raise FragmentFault(f"gather index {i} is out of range for an axis of size {len(data)}")
+    return data[i]
 
 
 def _argsort(recv):
